@@ -51,7 +51,7 @@ var (
 )
 
 func startWorker() *workerProc {
-	cmd := osexec2.Command("sh", "-c", "ulimit -v 6000000; exec \"$0\"", os.Args[0])
+	cmd := osexec2.Command("sh", "-c", "ulimit -v 3000000; exec \"$0\"", os.Args[0])
 	cmd.Env = append(os.Environ(), "C11_WORKER=1", "C11_CHILD=1")
 	in, err1 := cmd.StdinPipe()
 	out, err2 := cmd.StdoutPipe()
